@@ -308,6 +308,56 @@ def suite_soup(ctx, n):
     ctx.sample({"suite": "soup", "document": docs[0][1][:500]})
 
 
+def completion_cases(rng, n):
+    """the finalising step (a top-level final state was entered, or the session was cancelled) runs the exit handlers of every
+    active state: each <onexit> block is its own unit there too. States with 2-3 onexit blocks, failing elements at random places"""
+    uv = [0]
+    def block():
+        out = []
+        for _ in range(rng.randint(1, 3)):
+            uv[0] += 1
+            x = rng.random()
+            out.append("(fail %d %s)" % (uv[0], rng.choice(["exec", "comm"])) if x < 0.35 else "(log %d L%d)" % (uv[0], uv[0]) if x < 0.85 else "(raise %d i1)" % uv[0])
+        return "(onexit %s)" % " ".join(out)
+    def blocks(): return " ".join(block() for _ in range(rng.randint(2, 3)))
+    cases = []
+    for _ in range(n):
+        uv[0] = 0
+        sx = ("(scxml root (init p) (state p (init c) %s (state c %s (t g - e (d))) (state d %s) (t e - e (f))) (final f %s))"
+              % (blocks(), blocks(), blocks(), blocks()))
+        d = charts.from_sexpr(sx)
+        ops = rng.choice([["q", "e:e", "q"], ["q", "c", "s", "s"], ["q", "e:g", "q", "c", "s", "s"], ["q", "e:g", "e:e", "q"], ["s", "c", "q"]])
+        cases.append((d, ops))
+    return cases
+
+
+def suite_completion(ctx, n):
+    from checks import c10
+    cases = completion_cases(ctx.rng, n)
+    st = dict(inputs=0, agree=0, completions=0, elements_run_in_completion=0, violations=0)
+    for eng in ("large", "fast"):
+        lines = [c10.api_line(eng, d, ops) for d, ops in cases]
+        H, M = c10.run_api(ctx, lines)
+        for (d, ops), l, h, m in zip(cases, lines, H, M):
+            st["inputs"] += 1
+            th = h.split(" ")
+            if "bcomp" in th:
+                st["completions"] += 1
+                seg = th[th.index("bcomp"):]
+                st["elements_run_in_completion"] += sum(1 for t in seg if t.startswith("bpe:error") or t.startswith("bc:"))
+            bad = [t for t in th if t.startswith(("CRASH", "EXIT", "EXC", "bad-op"))]
+            if h == m and not bad: st["agree"] += 1; continue
+            st["violations"] += 1
+            if len(ctx.violations) < 3:
+                k = E.first_diff(th, m.split(" "))
+                ctx.violation("completion-%d" % len(ctx.violations), "completion-blocks", [l],
+                              detail="engine %s: %s\nchart: %s\nops: %s" % (eng, ("abnormal outcome " + bad[0]) if bad else
+                              "the finalising step differs from the model (every <onexit> block is its own unit: a failing element skips the rest of its block only) at token %d: I %s / M %s"
+                              % (k, " ".join(th[max(0, k - 4):k + 4]), " ".join(m.split(" ")[max(0, k - 4):k + 4])), charts.sexpr(d), ",".join(ops)))
+    ctx.add_suite("completion-blocks", **st)
+    return st
+
+
 def run(ctx):
     ctx.setup(variants=("asan",))
     ctx.audit(THEOREMS, LEAN_FILES)
@@ -317,10 +367,11 @@ def run(ctx):
     for dm, n in (("null", 700 if quick else 15000), ("lua", 500 if quick else 10000), ("promela", 500 if quick else 10000)):
         st = suite_inject(ctx, dm, n)
         tot += st["inputs"]; nontriv += st["with_error_events"]
+    suite_completion(ctx, 150 if quick else 4000)
     suite_other(ctx, 3 if quick else 40)
     suite_async(ctx, 2 if quick else 30)
     suite_soup(ctx, 1200 if quick else 40000)
-    for s in ("forms", "inject-other", "inject-async", "soup"): tot += ctx.coverage["suites"][s]["inputs"]
+    for s in ("forms", "inject-other", "inject-async", "soup", "completion-blocks"): tot += ctx.coverage["suites"][s]["inputs"]
     ctx.coverage["evaluations"] = tot
     ctx.coverage["distinct_nontrivial"] = nontriv
     ctx.coverage["rule"] = ("random charts (3-12 states) whose executable blocks (onentry/onexit/transition, nested if/elseif/else) contain failing elements with p=0.3 per element, "
@@ -336,6 +387,9 @@ def run(ctx):
 
 def replay(ctx, path):
     ctx.setup(variants=("asan",))
+    if "suite=completion-blocks" in open(path).readline():
+        import uvlib
+        return uvlib.generic_replay(ctx, path, [(None, "api", "api", "asan")], variants=("asan",))
     for line in open(path):
         if "\t" not in line or line.startswith(("#", "property=")): continue
         h = run_raw(ctx, [line.rstrip("\n")])
